@@ -85,6 +85,9 @@ var c09Sites = []c09Site{
 	{"trailing-var", false, false},
 	{"detached-before-type", false, false},
 	{"detached-before-func", false, false},
+	// the declaration's own doc comment consists of compiler directives only; the comment stands detached above it
+	{"detached-before-type-with-directive-doc", false, false},
+	{"detached-before-func-with-directive-doc", false, false},
 	{"file-header-detached", false, false},
 	{"package-doc", false, false},
 	{"inside-func-body", false, false},
@@ -138,6 +141,12 @@ func c09Program(s c09Site, place string, c string) *prog.Program {
 		slot["typeDetached"] = lines("") + "\n"
 	case "detached-before-func":
 		slot["funcDetached"] = lines("") + "\n"
+	case "detached-before-type-with-directive-doc":
+		slot["typeDetached"] = lines("") + "\n"
+		slot["typeDoc"] = "//go:generate echo generated\n"
+	case "detached-before-func-with-directive-doc":
+		slot["funcDetached"] = lines("") + "\n"
+		slot["funcDoc"] = "//go:noinline\n"
 	case "file-header-detached":
 		slot["header"] = lines("") + "\n"
 	case "package-doc":
